@@ -31,38 +31,53 @@ Chosen(d, n) == Tier = "thorough" \/ Light(d) \/ Scramble(n)
 Trails21 == {"none", "semicolon", "comment", "trace"}
 Intx21   == {"no", "begin"}
 Deco21 == SetToSeq([lead : Leads, kwsep : Kwseps, cs : Cases, trail : Trails21])
-Ctx21  == SetToSeq([chan : Chans, intx : Intx21, ro : BOOLEAN, split : BOOLEAN])
+Ctx21  == SetToSeq([chan : Chans, intx : Intx21, ro : BOOLEAN, split : BOOLEAN, sess : {"plain"}, priv : {"static"}])
+CtxHist21 == SetToSeq({ x \in [chan : Chans, intx : Intx21, ro : BOOLEAN, split : BOOLEAN, sess : Sessions, priv : Privs] :
+                           x.sess # "plain" \/ x.priv # "static" })      \* sessions with a history
+PlainDeco21 == <<[lead |-> "none", kwsep |-> "space", cs |-> "lower", trail |-> "none"]>>
 Kind21 == SetToSeq(Kinds)
 
 Mk21(k, l, x) == [kind |-> k, lead |-> l.lead, kwsep |-> l.kwsep, cs |-> l.cs, trail |-> l.trail,
                   lock |-> "none", lockopt |-> "none", hint |-> "none", probe |-> "none",
-                  chan |-> x.chan, intx |-> x.intx, ro |-> x.ro, split |-> x.split, csl |-> TRUE]
+                  chan |-> x.chan, intx |-> x.intx, ro |-> x.ro, split |-> x.split, csl |-> TRUE,
+                  sess |-> x.sess, priv |-> x.priv]
 
 In21(d) == /\ PolWF(d)
            /\ \/ d.ro /\ Modifies(d)          \* the property's subject: full product
               \/ PolNFeat(d) <= 1             \* controls
+              \/ ~d.ro /\ Modifies(d) /\ d.priv = "reloaded" /\ PolNFeat(d) <= 2
 
-Next21 == \E i \in DOMAIN Kind21, j \in DOMAIN Deco21, k \in DOMAIN Ctx21 :
-            LET d == Mk21(Kind21[i], Deco21[j], Ctx21[k])
-            IN /\ In21(d)
-               /\ Chosen(d, (i * Len(Deco21) + j) * Len(Ctx21) + k)
-               /\ c' = d
+Pick21(ds, xs, off) ==
+    \E i \in DOMAIN Kind21, j \in DOMAIN ds, k \in DOMAIN xs :
+       LET d == Mk21(Kind21[i], ds[j], xs[k])
+       IN /\ In21(d)
+          /\ Chosen(d, off + (i * Len(ds) + j) * Len(xs) + k)
+          /\ c' = d
+
+Next21 == \/ Pick21(Deco21, Ctx21, 0)                \* every decoration, sessions without history
+          \/ Pick21(PlainDeco21, CtxHist21, 3)       \* undecorated text, every channel / session history / reload
 
 (* ---------------- C22 ---------------- *)
 Leads22  == {"none", "space", "newline", "comment", "dash", "version_wrap"}
 Kinds22  == ReadKinds \cup {"insert", "update", "delete", "replace"}
-Chans22  == {"query", "multi_first", "multi_last", "prepared"}
 
 Reason22 == SetToSeq({ r \in [kind : Kinds22, lock : Locks, lockopt : LockOpts, hint : Hints, probe : Probes] :
                          PolWF([kind |-> r.kind, lead |-> "none", kwsep |-> "space", cs |-> "lower", trail |-> "none",
                                 lock |-> r.lock, lockopt |-> r.lockopt, hint |-> r.hint, probe |-> r.probe,
-                                chan |-> "query", intx |-> "no", ro |-> FALSE, split |-> TRUE, csl |-> TRUE]) })
+                                chan |-> "query", intx |-> "no", ro |-> FALSE, split |-> TRUE, csl |-> TRUE,
+                                sess |-> "plain", priv |-> "static"]) })
 Deco22 == SetToSeq([lead : Leads22, cs : Cases, trail : Trails])
-Ctx22  == SetToSeq([chan : Chans22, intx : Intxs, ro : BOOLEAN, split : BOOLEAN, csl : BOOLEAN])
+Chans22 == {"query", "multi_first", "multi_last", "multi_after_read", "prepared"}
+Ctx22  == SetToSeq([chan : Chans22, intx : Intxs, ro : BOOLEAN, split : BOOLEAN, csl : BOOLEAN, sess : {"plain"}, priv : {"static"}])
+CtxHist22 == SetToSeq({ x \in [chan : {"query", "multi_after_read", "prepared"}, intx : Intxs, ro : BOOLEAN, split : BOOLEAN,
+                                csl : {TRUE}, sess : Sessions, priv : Privs] :
+                           x.sess # "plain" \/ x.priv # "static" })
+PlainDeco22 == <<[lead |-> "none", cs |-> "lower", trail |-> "none"]>>
 
 Mk22(r, l, x) == [kind |-> r.kind, lead |-> l.lead, kwsep |-> "space", cs |-> l.cs, trail |-> l.trail,
                   lock |-> r.lock, lockopt |-> r.lockopt, hint |-> r.hint, probe |-> r.probe,
-                  chan |-> x.chan, intx |-> x.intx, ro |-> x.ro, split |-> x.split, csl |-> x.csl]
+                  chan |-> x.chan, intx |-> x.intx, ro |-> x.ro, split |-> x.split, csl |-> x.csl,
+                  sess |-> x.sess, priv |-> x.priv]
 
 MainUser(d) == ~d.ro /\ d.split /\ d.csl /\ d.intx = "no"
 LexNFeat(d) == B2N(d.lead # "none") + B2N(d.cs # "lower") + B2N(d.trail # "none")
@@ -85,6 +100,7 @@ Pick22(rs, ds, xs, off) ==
 
 Next22 == \/ Pick22(Reason22, Deco22, MainCtx22, 0)        \* full lexical product, rw-split user
           \/ Pick22(Reason22, DecoFew22, Ctx22, 7)          \* every context, lightly decorated
+          \/ Pick22(Reason22, PlainDeco22, CtxHist22, 13)   \* undecorated text, sessions with a history (keep-session, earlier read, reload)
 
 (* ---------------- behaviour ---------------- *)
 Init == c = NoCase
@@ -95,7 +111,7 @@ Spec == Init /\ [][Next]_vars
 Out(d) == [p |-> Family, kind |-> d.kind, lead |-> d.lead, kwsep |-> d.kwsep, cs |-> d.cs, trail |-> d.trail,
            lock |-> d.lock, lockopt |-> d.lockopt, hint |-> d.hint, probe |-> d.probe,
            chan |-> d.chan, intx |-> d.intx, ro |-> d.ro, split |-> d.split, csl |-> d.csl,
-           expect |-> Decision(d)]
+           sess |-> d.sess, priv |-> d.priv, expect |-> Decision(d)]
 
 Emit == IsCase => PrintT(<<"CASE", ToJson(Out(c))>>)
 
